@@ -7,7 +7,7 @@ PID=$1; PATCH=$2; shift 2
 S=/tmp/seedtry/$PID.$$
 mkdir -p /tmp/seedtry && rm -rf $S && rsync -a --exclude target --exclude .git /repo/ $S/ || exit 3
 ( cd $S && patch -p1 --quiet < $PATCH ) || { echo "patch does not apply"; rm -rf $S; exit 3; }
-cd /verif
+cd "$(cd "$(dirname "$0")/.." && pwd)"
 for P in $PID "$@"; do
   VERIF_REPO=$S ./check $P --tier quick > /tmp/seedtry/$P.$$.log 2>&1; rc=$?
   echo "== $P exit=$rc"; grep -E "^VIOLATION|^KNOWN-FINDING|tier=" /tmp/seedtry/$P.$$.log | cut -c1-260
